@@ -6,7 +6,7 @@ from tokutil import *  # noqa
 import h1tok_util as H
 
 ID = "C01"
-LEAN_MODULE = ["SCoda.Props.C01", "SCoda.Props.C01b", "SCoda.Props.C01Glue", "SCoda.Props.C02", "SCoda.Props.C01c", "SCoda.Props.TokTie", "SCoda.Props.C01n", "SCoda.Props.UtilTie"]
+LEAN_MODULE = ["SCoda.Props.C01", "SCoda.Props.C01b", "SCoda.Props.C01Glue", "SCoda.Props.C02", "SCoda.Props.C01c", "SCoda.Props.TokTie", "SCoda.Props.C01n", "SCoda.Props.UtilTie", "SCoda.Props.Defs"]
 LEVEL = "proof"
 CLAUSES = [
     ("every token tokenise emits is in the vocabulary, and decode(encode(tokens)) = tokens",
@@ -43,6 +43,8 @@ CLAUSES = [
      ["SCoda.C01n.duration_no_tail'", "SCoda.C01n.duration_no_tail_single", "SCoda.C01n.duration_seq", "SCoda.C01n.duration_le", "SCoda.C01n.duration_each_statement_false", "SCoda.C01n.duration_pieceEnd_statement_false"]),
     ("TIE BY TRANSLATION, numeric helpers: scoda/misc/util.py is re-translated statement by statement on every run (Gen/UtilFns.lean, tools/py2lean_util.py: one operator of the PyNum int/float tower per Python operator — floats as exact rationals, no rounding modelled —, range/enumerate/zip/comprehensions, while with proved fuel, numpy.digitize(right=True) modelled explicitly) and tied to the hand models and to the dumped tables: bin_velocity = the model's binIndex for ascending bins (refuted for descending / non-monotone bin lists, where the code answers through numpy.digitize or raises ValueError: replayed), get_velocity_bins for every n ≠ 0 and the default bins evaluated from the translated source = the dumped table; velocity_from_bin, digitise_velocity, minmax against independent arithmetic specifications",
      ["SCoda.UtilTie.binVelocity_sorted", "SCoda.UtilTie.binVelocity_default", "SCoda.UtilTie.binVelocity_eq_statement_false", "SCoda.UtilTie.getVelocityBins_int", "SCoda.UtilTie.defaultBins_eq", "SCoda.UtilTie.binSize_eq", "SCoda.UtilTie.velocityFromBin_spec", "SCoda.UtilTie.digitiseVelocity_spec", "SCoda.UtilTie.minmax_spec", "SCoda.UtilTie.minmax_spec_statement_false", "SCoda.UtilTie.default_tables_from_source"]),
+    ("detokenise on arbitrary strings: on every string list the model parser accepts (numeric fields non-empty ASCII digit strings, any width, parts in any order) the generated code equals the model for ppqn >= 0 and non-zero denominators; tsg_04_00 raises ZeroDivisionError (model: capacity 0); the source also accepts rst_+5 / 'rst_ 5', which the model parser rejects (an artefact of the model's int parser, not of the code; non-ASCII digits are outside the link int(str)); the points excluded by tokenise_eq as theorems: with ppqn = -1 the code leaves capacity -1 where the model floors to -2, a time-signature event with denominator 0 raises ZeroDivisionError where the model raises TokenisationException (both replayed; outside the MIDI domain)",
+     ["SCoda.Defs.detokenise_strings_partial", "SCoda.Defs.detokenise_strings_statement_false", "SCoda.Defs.detokenise_anystring_statement_false", "SCoda.Defs.tokenise_negative_ppqn_generated", "SCoda.Defs.tokenise_negative_ppqn_model", "SCoda.Defs.tokenise_negative_ppqn_statement_false", "SCoda.Defs.tokenise_event_denominator_zero_generated", "SCoda.Defs.tokenise_event_denominator_zero_model", "SCoda.Defs.tokenise_event_denominator_zero_statement_false"]),
 ]
 RULE = ("valid multi-track pieces (1-3 tracks, 1-5 bars, <=3 notes per bar and track, signature changes on bar lines, rests "
         "crossing bar lines, simultaneous notes across tracks) x configurations (all 16 flag combinations sampled, velocity "
